@@ -145,3 +145,8 @@ pub fn c18_ser_str(inp: &[u8; 3]) -> Result<(), u32> {
     if it.next().is_some() { return Err(2); }
     Ok(())
 }
+
+/// not a property: fails for exactly one input pattern (used to test the counterexample -> replay path)
+pub fn selftest(inp: &[u8; 3]) -> Result<(), u32> {
+    if inp[0] == 7 && inp[2] == 9 { Err(1) } else { Ok(()) }
+}
